@@ -6,7 +6,8 @@
 (* most ParseBudget(t) token operations for t tokens.  The budgets are generous quadratic        *)
 (* bounds: every correct run is far below them, a loop that does not advance exceeds any         *)
 (* bound.  The lexeme alphabet and the length bounds of the exhaustive input family are          *)
-(* constants of this module (the harness enumerates the product; "<nul>" stands for a NUL byte).   *)
+(* constants of this module (the harness enumerates the product; "<nul>" stands for a NUL byte,
+   "<eacute>" "<lambda>" "<uuml>" "<nbsp>" "<emoji>" for non-ASCII characters).                                        *)
 EXTENDS Naturals, Sequences
 
 ScanBudget(n)  == 40 * (n + 2) * (n + 2) + 1000
@@ -17,7 +18,7 @@ ExpandBudget(n) == 4000 * (n + 2)
 Lexemes == << "lda", "sta.w", "nop", "bra", ".db", ".dw", ".text", ".ascii", ".macro", ".if", ".for", ".scope", ".include",
               ".incbin", ".table", ".map", ".struct", "else", "label:", "name", "name.sub", "0x1F", "12", "0b101", "0x",
               "'abc'", "'abc", "'", "/*", "*/", "/* c */", ";", "; c", "{", "}", "{{", "}}", "(", ")", "[", "]", ",", "#",
-              "+", "-", "*", "<<", ">", "=", ":=", "*=", "@=", ".b", ",x", ",q", ".", "\\", "!", "\n", " ", "\t", "<nul>" >>
+              "+", "-", "*", "<<", ">", "=", ":=", "*=", "@=", ".b", ",x", ",q", ".", "\\", "!", "\n", " ", "\t", "<nul>", "<eacute>", "<lambda>x", "na<uuml>me", "<nbsp>", "<emoji>" >>
 QuickLen == 3
 ThoroughLen == 4
 
